@@ -12,13 +12,16 @@ LEVEL = "exploration"
 N_QUICK, N_THOROUGH = 30000, 1000000
 T_QUICK, T_THOROUGH = 70, 1500
 FLOORS = {"dest:same-buffer": 1500, "dest:other-buffer": 1500, "dest:other-context": 1500, "copies_with_refs": 1500,
-          "isolation_writes": 20000, "referent_checks": 5000, "seen:ar1sS": 100}
+          "isolation_writes": 20000, "referent_checks": 5000, "seen:ar1sS": 100, "hybrid_copies": 1500,
+          "hybrid_referent_checks": 500}
 RULE = ("random type AST (references at any depth) x value x placement; T(obj, _buffer=same | other buffer of the "
         "context | _context=other); oracle: copy re-reads equal to the model; bytes written by the copy lie in "
         "allocations made during the copy and are disjoint from the original's extent; every reference in the copy "
         "resolves into live memory of the copy's buffer: same offset as the source's referent when buffers are "
         "shared, a different live object of equal value otherwise; writes to sampled leaves of either side leave "
-        "the other side's full re-read unchanged. distinct = (name-erased AST, destination kind).")
+        "the other side's full re-read unchanged; 15% of the cases copy generated HybridClass families with bound "
+        "references through HybridClass.copy() (same buffer / other buffer / other context / default) with the same "
+        "oracle on the Python attributes and on the buffer data. distinct = (name-erased AST, destination kind).")
 ASSUMPTIONS = ["in the shared-buffer case writes *through* a shared reference are visible on both sides by design and are not isolation cases"]
 
 
@@ -43,6 +46,8 @@ def exts_of(env, t, off):
 
 
 def run_case(w, rng):
+    if rng.random() < 0.15:
+        return run_hybrid_copy(w, rng)
     c = new_case(w, rng, roots=("st", "ar", "str"))
     t, env = c.t, c.env
     dest = rng.choice(["same-buffer", "other-buffer", "other-context"])
@@ -162,6 +167,122 @@ def run_case(w, rng):
                 break
         w.case([shape_sig(t), dest, env.kind, denv.kind], sample=info if c.nontrivial and rng.random() < 0.004 else None,
                nontrivial=c.nontrivial)
+    finally:
+        env.close()
+        if env2 is not None:
+            env2.close()
+        flush_contracts(w, info)
+
+
+# --------------------------------------------------------------------------
+# HybridClass.copy()
+# --------------------------------------------------------------------------
+def run_hybrid_copy(w, rng):
+    from xv.hybridgen import gen_family, ValGenH, to_kwargs, compare_h, copy_model, spec_sig
+
+    specs, outer = gen_family(rng, levels=rng.choice([1, 1, 2]), refs=True)
+    vg = ValGenH(rng)
+    env = Env(rng, ctx=ctxs()[0], kind="numpy", neighbours=rng.choice([0, 2]))
+    env2 = None
+    table = {}
+    info = dict(hybrid_family=[(sp["name"], spec_sig(sp)) for sp in specs])
+    seen = set()
+
+    def viol(mech, msg):
+        if mech not in seen:
+            seen.add(mech)
+            w.violation(mech, msg, info)
+
+    def resolve(i):
+        return table[i]
+
+    try:
+        mv = vg.value(outer)
+        try:
+            obj = outer["cls"](**to_kwargs(outer, mv, rng, _buffer=env.buf))
+
+            def bind(spec, m, o):
+                for xn, pn, kind, sub, dflt in spec["fields"]:
+                    if kind == "ref" and rng.random() < 0.8:
+                        tmv = vg.value(sub)
+                        tgt = sub["cls"](**to_kwargs(sub, tmv, rng, _buffer=o._buffer))
+                        setattr(o, pn, tgt)
+                        table[len(table) + 1] = (sub, tmv)
+                        m[xn] = len(table)
+                    elif kind == "nested":
+                        bind(sub, m[xn], getattr(o, pn))
+            bind(outer, mv, obj)
+        except Exception as e:
+            w.violation(f"construct-{exc_kind(e)}", f"{type(e).__name__}: {e}", info)
+            return
+        if compare_h(outer, mv, obj, resolve):
+            w.count("skipped_construct_mismatch")
+            return
+        dest = rng.choice(["same-buffer", "other-buffer", "other-context", "default"])
+        info["dest"] = dest
+        try:
+            if dest == "same-buffer":
+                cp = obj.copy(_buffer=env.buf)
+            elif dest == "other-buffer":
+                env2 = Env(rng, ctx=ctxs()[0], kind="numpy")
+                cp = obj.copy(_buffer=env2.buf)
+            elif dest == "other-context":
+                cp = obj.copy(_context=ctxs()[1])
+            else:
+                cp = obj.copy()
+        except Exception as e:
+            viol(f"hybrid-copy-{exc_kind(e)}|{dest}", f"{type(e).__name__}: {e}")
+            return
+        w.count("hybrid_copies")
+        w.count("hybrid_dest:" + dest)
+        shared = cp._buffer is obj._buffer
+        if shared and int(cp._offset) == int(obj._offset):
+            viol("hybrid-copy-is-the-original", dest)
+        if dest == "other-buffer" and cp._buffer is not env2.buf:
+            viol("hybrid-copy-in-wrong-buffer", dest)
+        if dest == "other-context" and cp._buffer.context is not ctxs()[1]:
+            viol("hybrid-copy-in-wrong-context", dest)
+        for name, o in (("copy", cp), ("original", obj)):
+            for p, kind, detail in compare_h(outer, mv, o, resolve)[:2]:
+                viol(f"hybrid-{name}:{kind}|{dest}", f"{p}: {detail}")
+        if seen:
+            return
+        # every reference of the copy resolves inside the copy's own buffer: same referent when the buffer is
+        # shared, a duplicate otherwise -- through the Python attribute AND through the buffer data
+        def refs(spec, m, o, oo, path):
+            for xn, pn, kind, sub, dflt in spec["fields"]:
+                if kind == "nested":
+                    refs(sub, m[xn], getattr(o, pn), getattr(oo, pn), path + [pn])
+                elif kind == "ref" and m[xn] is not None:
+                    w.count("hybrid_referent_checks")
+                    for view, r, r0 in (("py", getattr(o, pn), getattr(oo, pn)),
+                                        ("xo", getattr(o._xobject, xn), getattr(oo._xobject, xn))):
+                        if r is None:
+                            viol(f"hybrid-copy-reference-null|{view}", ".".join(path + [pn]))
+                        elif r._buffer is not o._buffer:
+                            viol(f"reference-of-hybrid-copy-resolves-outside-its-buffer|{view}|{dest}", ".".join(path + [pn]))
+                        elif shared and int(r._offset) != int(r0._offset):
+                            viol(f"shared-buffer-hybrid-copy-duplicated-referent|{view}", ".".join(path + [pn]))
+        refs(outer, mv, cp, obj, [])
+        # write isolation on scalar fields of the two sides
+        mvs = {"copy": mv, "original": mv}
+        objs = {"copy": cp, "original": obj}
+        sc = [f for f in outer["fields"] if f[2] == "sc"]
+        for _ in range(3):
+            if not sc or seen:
+                break
+            xn, pn, _k, sub, _d = rng.choice(sc)
+            side = rng.choice(["copy", "original"])
+            v = vg.scalar(sub)
+            setattr(objs[side], pn, v.item())
+            m2 = copy_model(outer, mvs[side])
+            m2[xn] = v
+            mvs[side] = m2
+            w.count("isolation_writes")
+            for name in ("copy", "original"):
+                for p, kind, detail in compare_h(outer, mvs[name], objs[name], resolve)[:1]:
+                    viol(f"hybrid-write-to-{side}-shows-in-{name}|{dest}" if name != side else f"hybrid-write-lost|{dest}", f"{p}: {detail}")
+        w.case(["hybrid", [spec_sig(sp) for sp in specs], dest], sample=info if rng.random() < 0.01 else None)
     finally:
         env.close()
         if env2 is not None:
